@@ -471,12 +471,91 @@ def _init(ctx: Ctx) -> None:
                          "around when the matrices are converted"))
     ctx.ob("D9.3", init, d_node, d_ok, d_why,
            construct="storage type covers the upper bound")
+    _stored_matrices(ctx, init)
     ctx.ob("D9.3", init, node, not problems,
            "constructor computes (lb, ub) = trivial_bounds(distances, "
            "flows), only tightens them (stored lb >= computed lb, stored ub "
            "<= computed ub on every path), and stores them"
            if not problems else "; ".join(dict.fromkeys(problems)),
            construct="constructor only tightens bounds")
+
+
+#: conversions that keep every element of an integer matrix (the width of
+#: the target type is D9.3 "storage type covers the upper bound")
+_KEEP_METHODS = {"astype", "copy", "view"}
+_KEEP_FUNCS = {"array", "asarray", "ascontiguousarray", "asanyarray",
+               "copy"}
+
+
+def _stored_matrices(ctx: Ctx, init: Any) -> None:
+    """`self.distances` and `self.flows` hold the constructor's `distances`
+    and `flows` arguments (possibly converted element by element) on every
+    outcome of the constructor's conditions; the bounds were computed from
+    these very arguments, so storing anything else breaks "the objective
+    lies within the bounds"."""
+    from sa.pathinline import paths
+    me = init.params[0]
+
+    def origin(e: ast.expr) -> str:
+        """The parameter whose elements `e` holds, "?" when unknown."""
+        while True:
+            if isinstance(e, ast.Name):
+                return e.id if e.id in init.params[1:] else "?"
+            if isinstance(e, ast.Call) and isinstance(
+                    e.func, ast.Attribute):
+                np_ = isinstance(e.func.value, ast.Name) and \
+                    e.func.value.id in ("np", "numpy")
+                if e.func.attr in _KEEP_METHODS and not np_:
+                    e = e.func.value
+                    continue
+                if e.func.attr in _KEEP_FUNCS and np_ and e.args:
+                    e = e.args[0]
+                    continue
+            return "?"
+    try:
+        ps = [q for q in paths(func_body(init)) if q.ended != "raise"]
+    except ValueError:
+        ps = []
+    for attr in ("distances", "flows"):
+        got: list[tuple[ast.AST, ast.expr, str]] = []
+        missing = 0
+        for q in ps:
+            sts = [ev for ev in q.events if ev.kind == "store"
+                   and isinstance(ev.value, ast.Attribute)
+                   and isinstance(ev.value.value, ast.Name)
+                   and ev.value.value.id == me and ev.value.attr == attr]
+            if not sts:
+                missing += 1
+                continue
+            got.append((sts[-1].node, sts[-1].extra, origin(sts[-1].extra)))
+        node: ast.AST = got[0][0] if got else init.node
+        wrong = [g for g in got if g[2] not in (attr, "?")]
+        unk = [g for g in got if g[2] == "?"]
+        if not ps or missing:
+            ok, why = False, (
+                f"the store into self.{attr} is not recognised on "
+                f"{missing if ps else 'any'} path(s) through the "
+                "constructor")
+        elif wrong:
+            node = wrong[0][0]
+            ok, why = False, (
+                f"self.{attr} receives `{ast.unparse(wrong[0][1])[:80]}`, "
+                f"i.e. the constructor's `{wrong[0][2]}` argument, on "
+                f"{len(wrong)} of {len(got)} paths through the constructor; "
+                f"the bounds were computed from `{attr}`")
+        elif unk:
+            node = unk[0][0]
+            ok, why = False, (
+                f"the value `{ast.unparse(unk[0][1])[:80]}` stored in "
+                f"self.{attr} is not recognised as the `{attr}` argument or "
+                "an element-wise conversion of it")
+        else:
+            ok, why = True, (
+                f"self.{attr} holds the `{attr}` argument (or its "
+                f"element-wise conversion) on all {len(got)} paths through "
+                "the constructor")
+        ctx.ob("D9.3", init, node, ok, why,
+               construct=f"stored {attr} matrix")
 
 
 def _value_range(ctx: Ctx) -> None:
